@@ -41,6 +41,13 @@ def build(ctx, rule):
     g.write_gfa = repo.func("gaftools.gfa", "GFA.write_gfa", rule)
     for f in (g.add_edge, g.remove_edge, g.remove_node, g.add_node, g.read_graph, g.write_gfa):
         ctx.analysed_func(f)
+    # the rules read the mutators in normal form: private helpers of the class inlined, constant loops unrolled
+    from ..core import tail_inlined, unroll_const_loops
+
+    g.raw = {k: getattr(g, k) for k in ("add_edge", "remove_edge", "remove_node", "add_node", "read_graph", "write_gfa")}
+    g.read_graph = tail_inlined(repo, g.read_graph, keep=lambda c: c.name in ("add_edge", "add_node"))
+    for k in ("remove_edge", "remove_node", "add_node"):
+        setattr(g, k, unroll_const_loops(tail_inlined(repo, getattr(g, k), keep=lambda c: c.name in ("add_edge", "remove_edge", "add_node", "remove_node") or c.name.startswith(("add_from_", "remove_from_")))))
     return g
 
 
